@@ -12,7 +12,8 @@ import contracts.rawparser as RPc
 import contracts.potable_cli as CLIc
 import contracts.query_actions as QAc
 FUNCTIONS = [(F_CP, 'ConfigParser._init_config_parser'), (F_CP, '_RawConfigParser.has_option'), (F_POT, '_create_override_tuple'), (F_POT, '_make_config_parser'), (F_CP, 'ConfigParser.__init__'),
-             (F_Q, '_list_section'), (F_Q, '_parse_raw'), (F_Q, '_list_items'), (F_Q, '_item_value'), (F_CP, 'ConfigParser.parsed_sections'), (F_CP, 'ConfigParser.raw_config_parser')]
+             (F_Q, '_list_section'), (F_Q, '_parse_raw'), (F_Q, '_list_items'), (F_Q, '_item_value'), (F_CP, 'ConfigParser.parsed_sections'), (F_CP, 'ConfigParser.raw_config_parser'),
+             (F_Q, 'action_list_items'), (F_Q, 'action_list_item_labels')]
 SPECSEQS = [QAc.other_sections, QAc.section_items, QAc.var_items]
 
 def lemmas():
@@ -86,6 +87,8 @@ MUTANTS = [
     (F_Q, '_list_items', "if 'tabulation' in parsed_sections:", "if 'table_form' in parsed_sections:", 'post'),
     (F_Q, '_list_items', "items.extend(raw_items)", "pass", 'post'),
     (F_Q, '_item_value', "key.rsplit(':', 1)", "key.split(':', 1)", 'post'),
+    (F_Q, 'action_list_items', "'{}={}\\n'", "'{}:{}\\n'", 'preserve/0'),
+    (F_Q, 'action_list_item_labels', "'{}\\n'.format(k)", "'{}\\n'.format(v)", 'preserve/0'),
     (F_CP, 'ConfigParser.parsed_sections', "if output_key and self._config_parser.has_section(section_key):", "if output_key:", 'post'),
 ]
 MODULE_MUTANTS = [
